@@ -8,6 +8,7 @@ import (
 	"net"
 	"net/url"
 	"runtime"
+	"strings"
 	"sync"
 	"time"
 
@@ -48,7 +49,7 @@ func (j *jitterConn) Write(p []byte) (int, error) {
 
 // session runs one full connection of the given kind and returns the ordered
 // observations of both peers (payloads as digests).
-func session(kind int, id int) (obs []string, err error) {
+func session(kind int, id int) (obs []string, late func() []string, err error) {
 	a, b := newBufPipe()
 	ca, cb := &jitterConn{Conn: a, seed: id}, &jitterConn{Conn: b, seed: id * 7}
 	defer a.Close()
@@ -59,6 +60,9 @@ func session(kind int, id int) (obs []string, err error) {
 	tag := fmt.Sprintf("k%d", kind)
 	sizes := [][]int{{1, 10, 100}, {4096, 5}, {70000, 3}, {0, 126, 125, 65536}}[kind/2%4]
 	var sobs, cobs []string
+	var keepProto, keepCProto string
+	var keepClosed error
+	var keepExts []httphead.Option
 	var wg sync.WaitGroup
 	var serr, cerr error
 	wg.Add(2)
@@ -77,6 +81,7 @@ func session(kind int, id int) (obs []string, err error) {
 			return
 		}
 		sobs = append(sobs, "hs:"+hs.Protocol+fmt.Sprint(len(hs.Extensions)))
+		keepProto = hs.Protocol
 		for {
 			var ms wsflate.MessageState
 			rd := &wsutil.Reader{Source: cb, State: ws.StateServerSide | ws.StateExtended, CheckUTF8: false, Extensions: []wsutil.RecvExtension{&ms},
@@ -90,6 +95,7 @@ func session(kind int, id int) (obs []string, err error) {
 				e = wsutil.ControlFrameHandler(cb, ws.StateServerSide)(h, rd)
 				if _, ok := e.(wsutil.ClosedError); ok {
 					sobs = append(sobs, "closed:"+e.Error())
+					keepClosed = e
 					return
 				}
 				if e != nil {
@@ -141,6 +147,7 @@ func session(kind int, id int) (obs []string, err error) {
 			ws.PutReader(br)
 		}
 		cobs = append(cobs, "hs:"+hs.Protocol+fmt.Sprint(len(hs.Extensions)))
+		keepCProto, keepExts = hs.Protocol, hs.Extensions
 		for mi, sz := range sizes {
 			msg := vh.PBytes(kind*10+mi, 0, sz)
 			var ms wsflate.MessageState
@@ -183,7 +190,7 @@ func session(kind int, id int) (obs []string, err error) {
 				break
 			}
 		}
-		e = ws.WriteFrame(ca, ws.MaskFrameInPlace(ws.NewCloseFrame(ws.NewCloseFrameBody(ws.StatusNormalClosure, "bye-"+tag))))
+		e = ws.WriteFrame(ca, ws.MaskFrameInPlace(ws.NewCloseFrame(ws.NewCloseFrameBody(ws.StatusNormalClosure, "bye-"+tag+"-"+strings.Repeat(tag, 45)))))
 		if e != nil {
 			cerr = e
 			return
@@ -199,9 +206,20 @@ func session(kind int, id int) (obs []string, err error) {
 	}()
 	wg.Wait()
 	if serr != nil || cerr != nil {
-		return nil, fmt.Errorf("server: %v client: %v", serr, cerr)
+		return nil, nil, fmt.Errorf("server: %v client: %v", serr, cerr)
 	}
-	return append(cobs, sobs...), nil
+	// values the application keeps: they are read again when every session is over
+	late = func() []string {
+		parts := []string{"proto:" + keepProto + "/" + keepCProto}
+		if keepClosed != nil {
+			parts = append(parts, "closed:"+keepClosed.Error())
+		}
+		for _, e := range keepExts {
+			parts = append(parts, "ext:"+extString(e))
+		}
+		return parts
+	}
+	return append(cobs, sobs...), late, nil
 }
 
 func c19(c *ctx) {
@@ -213,11 +231,11 @@ func c19(c *ctx) {
 	kinds := 8
 	solo := map[int][]string{}
 	for k := 0; k < kinds; k++ {
-		o, err := session(k, 1000+k)
+		o, late, err := session(k, 1000+k)
 		if err != nil {
 			vh.Fatal("solo session %d failed: %v", k, err)
 		}
-		solo[k] = o
+		solo[k] = append(o, late()...)
 	}
 	meta.Samples = append(meta.Samples, solo[3])
 	n := 0
@@ -230,8 +248,9 @@ func c19(c *ctx) {
 			for _, N := range []int{2, 8, 64} {
 				runtime.GOMAXPROCS(procs)
 				type res struct {
-					obs []string
-					err error
+					obs  []string
+					late func() []string
+					err  error
 				}
 				results := make([]res, N)
 				var wg sync.WaitGroup
@@ -239,8 +258,8 @@ func c19(c *ctx) {
 					wg.Add(1)
 					go func(i int) {
 						defer wg.Done()
-						o, err := session((i+round)%kinds, int(c.seed)*1000+round*100+i)
-						results[i] = res{o, err}
+						o, late, err := session((i+round)%kinds, int(c.seed)*1000+round*100+i)
+						results[i] = res{o, late, err}
 					}(i)
 				}
 				wg.Wait()
@@ -251,6 +270,9 @@ func c19(c *ctx) {
 						continue
 					}
 					obs := r.obs
+					if r.late != nil {
+						obs = append(obs, r.late()...)
+					}
 					if obs == nil {
 						obs = []string{fmt.Sprint(r.err)}
 					}
